@@ -6,6 +6,7 @@
 -/
 import HugrVerif.Proofs.StoreInsert
 import HugrVerif.Proofs.StoreInsertOrder
+import HugrVerif.Proofs.StoreInsertTotal
 import HugrVerif.Props.C04
 
 namespace HugrVerif.Props.C08
@@ -184,6 +185,15 @@ theorem mapping_total (rootOp : Ω) (m : μ) (a a' b : Store Ω μ) (hs : SInv a
     cases hg : Dict.get i mp with
     | none => simp [hg] at this
     | some x => exact ⟨x, rfl⟩
+
+/-- **Inserting never raises on a valid call**: for every B built through the API and every
+    insertion parent that is a node of A (A's root by default), `insert_hugr` returns a mapping — in
+    particular no `ParentBeforeChild`, also when B has deleted nodes and reused indices. -/
+theorem insert_total (rootOp : Ω) (m : μ) (a b : Store Ω μ) (hs : SInv a) (hb : C04.ReachT rootOp m b)
+    (parent : Option Nat) (htl : ∃ d, getNode a (parent.getD a.root) = .ok d) :
+    ∃ a' mp, insertHugr a b parent = .ok (a', mp) := by
+  obtain ⟨hsb, hhb, hrb, hab⟩ := C04.reachT_inv rootOp m b hb
+  exact insertHugr_succeeds a b hs hsb hhb hrb hab parent htl
 
 /-- The result satisfies the store invariant again (C04), so every query on it is determined by
     the embedded multigraph. -/
